@@ -1,11 +1,110 @@
-"""stream pa (model correspondence): whole parses of the DIMACS family and solver logs on the reader model,
-compared with the implementation: items, final outcome incl. error location, number of read calls."""
+"""stream pa (model correspondence): whole parses of the DIMACS family, solver logs and the two AIGER formats
+on the reader model, compared with the implementation: items, final outcome incl. error location or I/O error,
+number of read calls."""
 from streams import docs
+
+BAD_UTF8 = [b"\xff", b"\xc3", b"\xc3\x28", b"\xe2\x82", b"\xed\xa0\x80", b"\xf4\x90\x80\x80", b"\xc0\xaf", b"\xe0\x80\x80",
+            b"\xf0\x9f\x98", b"\x80", b"\xf5\x80\x80\x80", b"\xef\xbf\xbd", b"\xf0\x9f\x98\x80", b"\xed\x9f\xbf", b"\xe0\xa0\x80",
+            b"\xf0\x8f\x80\x80", b"\xf0\x90\x80\x80", b"\xf4\x8f\xbf\xbf", b"\xe0\x9f\x80", b"\xc1\x80", b"\xc2\x80", b"\xdf\xbf", b"\xf1\x80\x80\x80"]
+
+
+def aiger_corrupt(rng, data, ty, binary):
+    """one targeted corruption of an AIGER document (on top of docs.mutate)"""
+    tmax = docs.AIGER_TYPES[ty]
+    b = bytearray(data)
+    nl = b.find(b"\n")
+    k = rng.choice(["varlong", "nofinalnl", "badutf", "hdr", "hdr", "lit", "crlf", "extra", "extra", "delta"])
+    if k == "varlong":
+        i = rng.randrange(max(nl, 0) + 1, len(b) + 1) if len(b) > nl + 1 else len(b)
+        b[i:i] = bytes([rng.choice([0x80, 0xff, 0x81])]) * rng.choice([1, 6, 7, 8, 9]) + bytes([rng.choice([0, 1, 0x7f])])
+    elif k == "nofinalnl":
+        while b and b[-1] == 10 and rng.random() < 0.8:
+            b.pop()
+    elif k == "badutf":
+        i = rng.randrange(len(b) // 2, len(b) + 1)
+        b[i:i] = rng.choice(BAD_UTF8)
+    elif k == "hdr" and nl > 0:
+        f = bytes(b[:nl]).split(b" ")
+        if len(f) > 1:
+            j = rng.randrange(1, len(f))
+            try:
+                old = int(f[j])
+            except ValueError:
+                old = 0
+            f[j] = str(rng.choice([0, old + 1, old + 2, max(old - 1, 0), (tmax - 1) // 2, (tmax - 1) // 2 + 1, tmax, 2 ** 64 - 1,
+                                   2 ** 64, 2 ** 63, "00", "0%d" % old, "", "-1", 3, 70000])).encode()
+            if rng.random() < 0.2:
+                f.append(str(rng.choice([0, 1, 2])).encode())
+            if rng.random() < 0.1:
+                f = f[:rng.randrange(1, len(f) + 1)]
+            b[:nl] = b" ".join(f)
+    elif k == "lit":
+        spans = [s for s in docs._number_spans(b) if s[0] > nl]
+        if spans:
+            i, j = rng.choice(spans)
+            try:
+                old = int(b[i:j])
+            except ValueError:
+                old = 0
+            b[i:j] = str(rng.choice([0, 1, old + 1, old + 2, old | 1, 2 * old, "0%d" % old, 255, 256, 65536, tmax, tmax + 1, 2 ** 64])).encode()
+    elif k == "crlf":
+        ps = [i for i, x in enumerate(b) if x == 10]
+        if ps:
+            i = rng.choice(ps)
+            b[i:i] = b"\r"
+    elif k == "extra":
+        b.extend(rng.choice([b"x\n", b"c", b"c\n", b"c\nfoo", b"c\nfoo\n\xff\n", b"i0 name\n", b"o0 \xc3\n", b"l0 n", b"\n", b" ", b"c \n", b"c1 x\n",
+                             b"c\nline 1\nline 2\nno newline", b"c\nok\n\nbad \xe2\x82\n", b"j0 j\nf0 f\nb0 b\n", b"i9 x\n", b"i00 x\n"]))
+    elif k == "delta" and binary:
+        # a delta larger than the code it is subtracted from / bytes with the high bit set
+        i = rng.randrange(max(nl, 0) + 1, len(b) + 1) if len(b) > nl + 1 else len(b)
+        b[i:i] = docs.varint(rng.choice([1, 127, 128, 300, 2 ** 14, 2 ** 35, 2 ** 56 - 1]))
+    return bytes(b)
+
+
+def faulty(rng, sched, n):
+    """a schedule whose source fails or reports an early end somewhere"""
+    evs, pre, chunk, ctor = sched
+    parts = [] if evs == "-" else evs.split(",")
+    if not parts:
+        parts = ["d%d" % rng.randrange(1, n + 2) for _ in range(rng.randrange(0, 3))]
+    cut = rng.randrange(0, len(parts) + 1)
+    parts = parts[:cut] + [rng.choice(["f%d" % rng.randrange(1, 9), "f7", "e"])]
+    return ",".join(parts), pre, chunk, ctor
+
+
+def gen_aiger(rng, parser):
+    binary = parser == "aig"
+    ty = rng.choice(list(docs.AIGER_TYPES))
+    val = docs.gen_aig(rng, ty, small=rng.random() < 0.2)
+    data, _ = docs.render_aig(val, binary)
+    r = rng.random()
+    if r < 0.35:
+        pass
+    elif r < 0.6:
+        for _ in range(rng.choice([1, 1, 2, 3])):
+            data = docs.mutate(rng, data)
+    else:
+        for _ in range(rng.choice([1, 1, 2])):
+            data = aiger_corrupt(rng, data, ty, binary)
+    if len(data) > 400:
+        return None
+    flags = "w" if rng.random() < 0.25 else "-"
+    sched = docs.gen_schedule(rng, len(data))
+    if rng.random() < 0.15:
+        sched = faulty(rng, sched, len(data))
+    return "pa " + docs.setup(parser, ty, flags, data, sched)
+
 
 def gen(rng, n, tier, **kw):
     out = []
     while len(out) < n:
-        parser = rng.choice(["cnf", "cnf", "wcnf", "gcnf", "log"])
+        parser = rng.choice(["cnf", "cnf", "wcnf", "gcnf", "log", "aag", "aag", "aig", "aig"])
+        if parser in ("aag", "aig"):
+            case = gen_aiger(rng, parser)
+            if case is not None:
+                out.append(case)
+            continue
         parser, ty, flags, data, _ = docs.gen_doc(rng, parser=parser)
         if len(data) > 400:
             continue
